@@ -45,3 +45,13 @@ def date_of_ordinal(o):
 
 def date_with(o, sec):
     return _dt.datetime.fromordinal(o) + _dt.timedelta(seconds=sec)
+
+
+def amount_shaped(s):
+    import re
+    return re.fullmatch(r'\d*\.?\d+', s) is not None
+
+
+def reparse_timex(s):
+    from datatypes_timex_expression import Timex
+    return Timex(s)
